@@ -20,7 +20,8 @@ from refs import posix_tz_ref as pref
 
 DELTAS = [-86400, -3601, -3600, -1, 0, 1, 1799, 3599, 3600, 3601, 7200, 86400]
 VARIANTS = [dict(), dict(order=1), dict(fold=True), dict(crlf=False), dict(order=1, fold=True, crlf=False),
-            dict(rdate_years=tuple(range(1990, 2031))), dict(rdate_years=tuple(range(1990, 2031)), order=1)]
+            dict(rdate_years=tuple(range(1990, 2031))), dict(rdate_years=tuple(range(1990, 2031)), order=1),
+            dict(until='20371231T235959Z')]       # RFC 5545: UNTIL inside VTIMEZONE is a UTC time (the probes all lie before it)
 YEARS = (1995, 2024)
 FIRST_YEAR = 1990           # posixmenu.vtimezone writes its DTSTARTs in this year
 
@@ -249,7 +250,7 @@ def run(ctx):
     ctx.explore('tzid-and-malformed', misc, 'eval_misc', serial=True)
     ctx.coverage_extra.update({
         'bounds': {'deviation_bound_k': k, 'rule_specs': len(shs), 'variants': len(VARIANTS), 'years': [FIRST_YEAR] + list(YEARS)},
-        'rule': 'rule specs (M-form, times inside the day) with <= k deviations x 7 text variants; UTC-side probes around 5 transitions (in the first year of the definition the second onset only), '
+        'rule': 'rule specs (M-form, times inside the day) with <= k deviations x 8 text variants; UTC-side probes around 5 transitions (in the first year of the definition the second onset only), '
                 'wall-side probes with both folds, 3 rotated replays across the lookup cache, 3 instants before the first onset',
     })
     ctx.assumptions += ['tzstr of the same rule is the comparison zone and refs/posix_tz_ref.py the independent reference for it']
